@@ -79,6 +79,10 @@ func Scenarios(thorough bool) []Scenario {
 	// two modules
 	add("close-M0||close-M1", []string{"a", "b"}, []Op{C("M0")}, []Op{C("M1")})
 	add("close-M0||close-M1||look-a;look-b", []string{"a", "b"}, []Op{C("M0")}, []Op{C("M1")}, []Op{L("a"), L("b")})
+	add("close-M0;inst-a||look-a;look-b", []string{"a", "b"}, []Op{C("M0"), I("a")}, []Op{L("a"), L("b")})
+	add("close-M0;inst-a||close-M1;inst-b", []string{"a", "b"}, []Op{C("M0"), I("a")}, []Op{C("M1"), I("b")})
+	add("close-M0||close-M1||inst-c;look-a", []string{"a", "b"}, []Op{C("M0")}, []Op{C("M1")}, []Op{I("c"), L("a")})
+	add("inst-c;close||close-M0;look-a;look-c", []string{"a", "b"}, []Op{I("c"), C("mine")}, []Op{C("M0"), L("a"), L("c")})
 	// runtime close
 	add("rtclose||inst-a", nil, []Op{RC}, []Op{I("a")})
 	add("rtclose||inst-a;isclosed", nil, []Op{RC}, []Op{I("a"), Q("mine")})
